@@ -13,6 +13,7 @@ This private submodule is *not* intended for importation by downstream callers.
 
 # ....................{ IMPORTS                            }....................
 from beartype._check.cls.hint.hintsane import (
+    HINT_IGNORABLE,
     HINT_SANE_IGNORABLE,
     HINT_SANE_RECURSIVE,
     HintOrSane,
@@ -288,6 +289,15 @@ def reduce_hint_pep484604_union(
         #
         # If metadata encapsulates the reduction of this child hint...
         elif isinstance(hint_child_sane, HintSane):
+            # If this metadata encapsulates the ignorable hint (e.g., due to
+            # this child hint being overridden by the beartype configuration
+            # with an ignorable hint like "typing.Any"), this child hint is
+            # ignorable. In this case, reduce this entire union to the
+            # "HINT_SANE_IGNORABLE" singleton for the same reason as above.
+            if hint_child_sane.hint is HINT_IGNORABLE:
+                return HINT_SANE_IGNORABLE
+            # Else, this child hint is unignorable.
+
             # If either...
             if (
                 # This union has no parent and is thus a root hint *OR*...
